@@ -20,7 +20,7 @@
 
 import pickle
 from functools import reduce
-from os import makedirs
+from os import makedirs, replace
 from os.path import isdir, isfile, join
 from warnings import warn
 
@@ -428,14 +428,18 @@ def optimize_kl(likelihood_energy,
                     overwrite=True)
 
             if _MPI_master(comm(iglobal)):
-                with open(join(output_directory, "last_finished_iteration"), "w") as f:
-                    f.write(str(iglobal))
                 _pickle_save_values(iglobal, 'energy_history', energy_history)
                 if plot_energy_history:
                     _plot_energy_history(iglobal, energy_history)
         _barrier(comm(iglobal))
 
         _minisanity(lh, iglobal, sl, comm, plot_minisanity_history)
+        _barrier(comm(iglobal))
+
+        # Mark the iteration as finished only after everything that is read
+        # when resuming has been written completely
+        if output_directory is not None and _MPI_master(comm(iglobal)):
+            _save_last_finished_iteration(iglobal)
         _barrier(comm(iglobal))
 
         _counting_report(count, iglobal, comm)
@@ -482,11 +486,21 @@ def _load_random_state():
         setState(f.read())
 
 
+def _save_last_finished_iteration(index):
+    # Write to a temporary file and atomically move it into place such that
+    # the marker is never observed truncated or partially written
+    file_name = join(_output_directory, "last_finished_iteration")
+    with open(file_name + ".tmp", "w") as f:
+        f.write(str(index))
+    replace(file_name + ".tmp", file_name)
+
+
 def _pickle_save_values(index, name, val):
     file_name = join(_output_directory, f"pickle/{name}_")
     file_name += _file_name_by_strategy(index)
-    with open(file_name, "wb") as f:
+    with open(file_name + ".tmp", "wb") as f:
         pickle.dump(val, f)
+    replace(file_name + ".tmp", file_name)
 
 
 def _pickle_load_values(index, name):
